@@ -1,7 +1,7 @@
 (* C04 -- property theorems only.  Proofs live in C04/Proofs*.v. *)
 From Coq Require Import NArith Arith List Bool.
 From DV Require Import Base.Outcome Base.Bytes Base.Lex Base.Names Base.PName C04.Gen C04.Model
-  C04.ProofsLabel C04.ProofsIter C04.ProofsRepr C04.ProofsData C04.ProofsParsed C04.ProofsEmbed C04.ProofsOrder C04.ProofsCompressed C04.ProofsTyped C04.ProofsSuffix C04.ProofsOrdTable C04.ProofsAccept.
+  C04.ProofsLabel C04.ProofsIter C04.ProofsRepr C04.ProofsData C04.ProofsParsed C04.ProofsEmbed C04.ProofsOrder C04.ProofsCompressed C04.ProofsTyped C04.ProofsSuffix C04.ProofsOrdTable C04.ProofsAccept C04.ProofsWide.
 Import ListNotations.
 Local Open Scope N_scope.
 
@@ -444,3 +444,63 @@ Print Assumptions C04_parsed_record_eq_equiv.
 Theorem C04_record_order_is_not_wire_order : exists a b, m_record_canonical_cmp a b = Gt /\ lex_cmp (record_wire a) (record_wire b) = Lt.
 Proof. exact record_order_is_not_wire_order. Qed.
 Print Assumptions C04_record_order_is_not_wire_order.
+
+Theorem C04_name_eq_equiv_repr : forall ra rb rc a b c, denotes ra (a ++ [[]]) -> denotes rb (b ++ [[]]) -> denotes rc (c ++ [[]]) -> valid_abs a -> valid_abs b -> valid_abs c -> m_name_eq ra ra = Ok true /\ m_name_eq ra rb = m_name_eq rb ra /\ (m_name_eq ra rb = Ok true -> m_name_eq rb rc = Ok true -> m_name_eq ra rc = Ok true).
+Proof. exact name_eq_equiv_repr. Qed.
+Print Assumptions C04_name_eq_equiv_repr.
+
+Theorem C04_case_independent_repr : forall ra ra' rb a a' b, denotes ra (a ++ [[]]) -> denotes ra' (a' ++ [[]]) -> denotes rb (b ++ [[]]) -> valid_abs a -> valid_abs a' -> valid_abs b -> canon a = canon a' -> m_name_eq ra rb = m_name_eq ra' rb /\ m_name_cmp ra rb = m_name_cmp ra' rb /\ m_name_cmp rb ra = m_name_cmp rb ra' /\ m_name_hash ra = m_name_hash ra' /\ m_lc_composed_cmp ra rb = m_lc_composed_cmp ra' rb.
+Proof. exact case_independent_repr. Qed.
+Print Assumptions C04_case_independent_repr.
+
+Theorem C04_composed_cmp_eq_iff : forall ra rb a b, denotes ra (a ++ [[]]) -> denotes rb (b ++ [[]]) -> valid_abs a -> valid_abs b -> (m_composed_cmp ra rb = Ok Eq <-> a = b) /\ (m_lc_composed_cmp ra rb = Ok Eq <-> m_name_eq ra rb = Ok true).
+Proof. exact composed_cmp_eq_iff. Qed.
+Print Assumptions C04_composed_cmp_eq_iff.
+
+Theorem C04_name_cmp_common_suffix : forall a b s, name_cmp (a ++ s) (b ++ s) = name_cmp a b.
+Proof. exact name_cmp_common_suffix. Qed.
+Print Assumptions C04_name_cmp_common_suffix.
+
+Theorem C04_name_cmp_siblings : forall x y s, name_cmp (x :: s) (y :: s) = lex_cmp (lowers x) (lowers y).
+Proof. exact name_cmp_siblings. Qed.
+Print Assumptions C04_name_cmp_siblings.
+
+Theorem C04_name_cmp_parent_first : forall p s, p <> [] -> name_cmp s (p ++ s) = Lt.
+Proof. exact name_cmp_parent_first. Qed.
+Print Assumptions C04_name_cmp_parent_first.
+
+Theorem C04_name_cmp_first_difference : forall a b x y s, label_cmp x y <> Eq -> name_cmp (a ++ x :: s) (b ++ y :: s) = label_cmp x y.
+Proof. exact name_cmp_first_difference. Qed.
+Print Assumptions C04_name_cmp_first_difference.
+
+Theorem C04_name_cmp_rfc4034_repr : forall ra rb a b x y s, denotes ra ((a ++ x :: s) ++ [[]]) -> denotes rb ((b ++ y :: s) ++ [[]]) -> valid_abs (a ++ x :: s) -> lex_cmp (lowers x) (lowers y) <> Eq -> m_name_cmp ra rb = Ok (lex_cmp (lowers x) (lowers y)).
+Proof. exact name_cmp_rfc4034_repr. Qed.
+Print Assumptions C04_name_cmp_rfc4034_repr.
+
+Theorem C04_name_cmp_parent_first_repr : forall ra rb p s, denotes ra (s ++ [[]]) -> denotes rb ((p ++ s) ++ [[]]) -> valid_abs s -> valid_abs (p ++ s) -> p <> [] -> m_name_cmp ra rb = Ok Lt /\ m_name_cmp rb ra = Ok Gt.
+Proof. exact name_cmp_parent_first_repr. Qed.
+Print Assumptions C04_name_cmp_parent_first_repr.
+
+Theorem C04_label_total_order : forall a b c o, m_label_cmp b a = CompOpp (m_label_cmp a b) /\ (m_label_cmp a b = o -> m_label_cmp b c = o -> m_label_cmp a c = o) /\ m_label_eq a a = true /\ m_label_eq a b = m_label_eq b a /\ (m_label_eq a b = true -> m_label_eq b c = true -> m_label_eq a c = true).
+Proof. exact label_total_order. Qed.
+Print Assumptions C04_label_total_order.
+
+Theorem C04_label_case_independent : forall a a' b, lowers a = lowers a' -> m_label_eq a b = m_label_eq a' b /\ m_label_cmp a b = m_label_cmp a' b /\ m_label_cmp b a = m_label_cmp b a' /\ m_label_eq a (lowers a) = true.
+Proof. exact label_case_independent. Qed.
+Print Assumptions C04_label_case_independent.
+
+Theorem C04_charstr_eq_equiv : forall a b c, m_charstr_eq a a = true /\ m_charstr_eq a b = m_charstr_eq b a /\ (m_charstr_eq a b = true -> m_charstr_eq b c = true -> m_charstr_eq a c = true).
+Proof. exact charstr_eq_equiv. Qed.
+Print Assumptions C04_charstr_eq_equiv.
+
+Theorem C04_charstr_case_independent : forall a a' b, lowers a = lowers a' -> m_charstr_eq a b = m_charstr_eq a' b /\ m_charstr_cmp a b = m_charstr_cmp a' b /\ m_charstr_cmp b a = m_charstr_cmp b a' /\ m_charstr_hash a = m_charstr_hash a' /\ m_charstr_eq a (lowers a) = true.
+Proof. exact charstr_case_independent. Qed.
+Print Assumptions C04_charstr_case_independent.
+
+Theorem C04_charstr_canonical_total : forall a b c o, (m_charstr_canonical_cmp a b = Eq <-> a = b) /\ m_charstr_canonical_cmp b a = CompOpp (m_charstr_canonical_cmp a b) /\ (m_charstr_canonical_cmp a b = o -> m_charstr_canonical_cmp b c = o -> m_charstr_canonical_cmp a c = o).
+Proof. exact charstr_canonical_total. Qed.
+Print Assumptions C04_charstr_canonical_total.
+
+Theorem C04_rd_canonical_total : forall code r a b c, rd_lookup rd_table code = Some r -> map fv_kind a = row_kinds r -> map fv_kind b = row_kinds r -> map fv_kind c = row_kinds r -> Forall fv_ok a -> Forall fv_ok b -> Forall fv_ok c -> exists o, rd_canonical_cmp (row_canonical r) a b = Ok o /\ rd_canonical_cmp (row_canonical r) b a = Ok (CompOpp o) /\ (o = Eq <-> rd_enc a = rd_enc b) /\ (rd_canonical_cmp (row_canonical r) b c = Ok o -> rd_canonical_cmp (row_canonical r) a c = Ok o).
+Proof. exact rd_canonical_total. Qed.
+Print Assumptions C04_rd_canonical_total.
